@@ -71,6 +71,7 @@ BAD_LTS = ["abc", "", "1.5", "60s"]
 EXTRAS = ["et=oic.d.sensor", "et=tag:x", "foo=bar", "foo=baz", "v=1", "v=2", "obs", "x-unk=1", "foo=bar baz"]
 FORBIDDEN = ["rt=x", "href=/x", "page=1", "count=2", "anchor=/a"]
 BASES = ["coap://[2001:db8::1]:99", "coap://h.example", "coap://h.example/pre/", "coaps://h2.example:1234"]
+BAD_BASES = ["coap://[", "coap://[::1", "http://[fe80::1%25eth0"]
 HREFS = ["/s/t", "/s/h", "/s/t?x=1", "s/u", "/a", "/a/", ""]
 RTS = ["temp", "hum", "temp x", "core.s", "x"]
 IFS = ["core.s", "core.a core.s", "sensor"]
@@ -136,7 +137,12 @@ def gen_reg_query(r, ep, d):
         if lt is not None:
             q.append("lt=%d" % lt)
     x = r.random()
-    if x < 0.3:
+    if x < 0.02:
+        # a base that is no URI reference at all: whether the directory refuses it (4.00) or files it, everybody else's
+        # look-ups must go on working
+        q.append("base=" + r.choice(BAD_BASES))
+        valid = False
+    elif x < 0.3:
         q.append("base=" + r.choice(BASES))
     elif x < 0.33:
         q += ["base=" + BASES[0], "base=" + BASES[1]]
@@ -1056,6 +1062,11 @@ def execute(sim, scn):
             raise Stop()  # 5.xx: nothing is promised about the state afterwards
         lts = [v for k, v in pairs if k == "lt"]
         bases = [v for k, v in pairs if k == "base"]
+        if any(b in BAD_BASES for b in bases):
+            # filed although it is no URI reference: from now on the directory cannot compose the targets of ANY
+            # look-up that would include this registration -- everybody's look-ups fail
+            violation("C20/registration-with-unusable-base-accepted", query=op["q"], answered="%d.%02d" % rcode)
+            raise Stop()
         if key is None or len(lts) > 1 or len(bases) > 1 or (lts and plain_int(lts[0]) is None) or \
                 (bases and bases[0] is None) or "raw" in op or op.get("cf") != LINKFORMAT:
             sim.anomaly("C20/unmodelled-registration-accepted", str(op["q"]))
@@ -1129,6 +1140,9 @@ def execute(sim, scn):
             raise Stop()
         lts = [v for k, v in pairs if k == "lt"]
         bases = [v for k, v in pairs if k == "base"]
+        if any(b in BAD_BASES for b in bases):
+            violation("C20/registration-with-unusable-base-accepted", query=op["q"], answered="%d.%02d" % rcode)
+            raise Stop()
         if len(lts) > 1 or len(bases) > 1 or (lts and plain_int(lts[0]) is None) or (bases and bases[0] is None) or \
                 any(k in ("ep", "d") for k, _ in pairs) or "raw" in op or (code == PUT and op.get("cf") != LINKFORMAT) \
                 or (code == POST and has_body):
